@@ -125,12 +125,6 @@ func (n *c35Net) Ping(context.Context, peer.ID) ping.Result {
 
 type c35Sender struct{ h *c35H }
 
-func (s *c35Sender) park(p c35Park) {
-	s.h.atGate.Store(true)
-	s.h.parked <- p
-	<-s.h.release
-}
-
 func (s *c35Sender) SendMsg(ctx context.Context, m bsmsg.BitSwapMessage) error {
 	s.h.atGate.Store(true)
 	s.h.parked <- c35Park{Kind: "send"}
@@ -354,10 +348,10 @@ func c35Concurrent(t *testing.T, seed int64, sh bool, maxN int, nprod, nops, nci
 				}
 				for i := 0; i < nops; i++ {
 					time.Sleep(time.Duration(rng.Intn(30)) * time.Millisecond)
-					switch rng.Intn(7) {
-					case 0:
+					switch rng.Intn(8) {
+					case 0, 7:
 						h.call(p, c35Op{Op: "bcst", Ks: pick(2)})
-					case 1, 2:
+					case 1, 2, 3:
 						o := c35Op{Op: "wants"}
 						if rng.Intn(2) == 0 {
 							o.Wb = pick(2)
